@@ -1,6 +1,7 @@
 package management
 
 import (
+	"errors"
 	"github.com/lmorg/murex/lang"
 	"github.com/lmorg/murex/lang/types"
 	"github.com/lmorg/murex/shell"
@@ -17,7 +18,14 @@ func cmdHistory(p *lang.Process) (err error) {
 	//	return errors.New("This is only designed to be run when the shell is in interactive mode")
 	//}
 
-	list := shell.Prompt.History.Dump().([]history.Item)
+	if shell.Prompt == nil || shell.Prompt.History == nil {
+		return errors.New("history is only available when the shell is running interactively")
+	}
+
+	list, ok := shell.Prompt.History.Dump().([]history.Item)
+	if !ok {
+		return errors.New("history is only available when the shell is running interactively")
+	}
 
 	// If outputting to the terminal then lets just do pure JSON for readability
 	if p.Stdout.IsTTY() {
